@@ -3,10 +3,10 @@
 \* which some sweep after the first exchanges members of a cluster without changing its count or
 \* its coordinate total; the harness refits those data sets many times.
 CONSTANTS
-    Dim = 2
+    Dim = 3
     Vals = {0, 1, 2, 3}
     MaxN = 6
-    Ks = {2}
+    Ks = {2, 3}
     MaxIters = {3}
     LCM = 60
     RowSum = 3
